@@ -516,7 +516,10 @@ func c15Engine() *Engine {
 				}
 			}
 			name := genName(r, n)
-			for used[name] {
+			for tries := 0; used[name]; tries++ {
+				if tries > 4 {
+					n++ // short names run out when there are many columns
+				}
 				name = genName(r, n)
 			}
 			used[name] = true
@@ -566,7 +569,27 @@ func c15Engine() *Engine {
 				return false
 			}
 			if d := sameSchema(b.Cols, inf.Cols); d != "" {
-				mr.violate("schema-differs", "schema-differs|"+when+"|"+feat+"|"+schemaDiffClass(d), fmt.Sprintf("%s: %s reports a different schema than it was created with: %s", when, b.Key(), d))
+				// the known index-0 defect of 1D buckets writes the January 1 bar at
+				// Headersize-recordLength, i.e. backwards into the header: with a very wide
+				// record (hundreds of columns) it reaches the stored column types and names
+				cause := ""
+				if b.TF == "1D" {
+					for _, o := range w.Ops {
+						if o.Kind != "write" {
+							continue
+						}
+						for _, wr := range o.W {
+							for _, pt := range wr.Parts {
+								for _, rcd := range pt.Recs {
+									if IntervalStart(rcd.T, b.TFDur()) == yearStart(time.Unix(0, rcd.T).UTC().Year()) {
+										cause = "|1D-first-interval-of-year-written"
+									}
+								}
+							}
+						}
+					}
+				}
+				mr.violate("schema-differs", "schema-differs|"+when+"|"+feat+"|"+schemaDiffClass(d)+cause, fmt.Sprintf("%s: %s reports a different schema than it was created with: %s", when, b.Key(), d))
 				return false
 			}
 			if inf.TF != b.TFDur() {
